@@ -68,6 +68,30 @@ struct Param<P, 'P'> { // virtual_ptr<Obj, P>
     }
 };
 template<class P>
+struct Param<P, 'R'> { // const virtual_ptr<Obj, P>&
+    using decl = const virtual_ptr<Obj, P>&;
+    using arg = const virtual_ptr<Obj, P>&;
+    static virtual_ptr<Obj, P> make(Obj* o, int) {
+        return virtual_ptr<Obj, P>(*o);
+    }
+    static void note(arg a, int) {
+        g_rec.recv_cls[g_rec.nrecv] = a->cls;
+        g_rec.recv_oid[g_rec.nrecv++] = a->oid;
+    }
+};
+template<class P>
+struct Param<P, 'Q'> { // virtual_shared_ptr<Obj, P>
+    using decl = virtual_ptr<std::shared_ptr<Obj>, P>;
+    using arg = virtual_ptr<std::shared_ptr<Obj>, P>;
+    static arg make(Obj* o, int) {
+        return arg(std::shared_ptr<Obj>(o, [](Obj*) {}));
+    }
+    static void note(const arg& a, int) {
+        g_rec.recv_cls[g_rec.nrecv] = a->cls;
+        g_rec.recv_oid[g_rec.nrecv++] = a->oid;
+    }
+};
+template<class P>
 struct Param<P, 'N'> { // non-virtual int
     using decl = int;
     using arg = int;
@@ -108,6 +132,7 @@ struct Slot {
     std::uintptr_t (*do_resolve)(Obj* const*) = nullptr;
     int (*do_call)(Obj* const*) = nullptr;
     int (*call_ptr)(void*, Obj* const*) = nullptr;
+    int (*do_call_vp)(const void* const*) = nullptr; // virtual args given as ready-made virtual_ptr objects ('P','R','Q' shapes)
     // run-time state
     bool allocated = false, declared = false;
     int m = -1;
@@ -152,6 +177,29 @@ struct MS {
     static int call_ptr(void* pf, Obj* const* o) {
         return callp_(pf, o, std::make_index_sequence<sizeof...(S)>());
     }
+    // call with ready-made handles: vp[i] points to a virtual_ptr<Obj,P> ('P','R') or virtual_shared_ptr<Obj,P> ('Q')
+    template<char C>
+    static decltype(auto) from_handle(const void* const* vp, int pos) {
+        if constexpr (C == 'N') {
+            return 1000 + pos;
+        } else if constexpr (C == 'Q') {
+            return *static_cast<const virtual_ptr<std::shared_ptr<Obj>, P>*>(vp[SI::vidx(pos)]);
+        } else {
+            return *static_cast<const virtual_ptr<Obj, P>*>(vp[SI::vidx(pos)]);
+        }
+    }
+    static constexpr bool handle_shape = ((S == 'P' || S == 'R' || S == 'Q' || S == 'N') && ...);
+    template<std::size_t... I>
+    static int callvp_(const void* const* vp, std::index_sequence<I...>) {
+        if constexpr (handle_shape) {
+            return M::fn(from_handle<S>(vp, I)...);
+        } else {
+            return -1;
+        }
+    }
+    static int do_call_vp(const void* const* vp) {
+        return callvp_(vp, std::make_index_sequence<sizeof...(S)>());
+    }
     template<int... K>
     static void fill_recorders(Slot& s, std::integer_sequence<int, K...>) {
         ((s.rec_pf[K] = (void*)&recorder<K>), ...);
@@ -166,6 +214,7 @@ struct MS {
         s.do_resolve = &do_resolve;
         s.do_call = &do_call;
         s.call_ptr = &call_ptr;
+        s.do_call_vp = handle_shape ? &do_call_vp : nullptr;
         return s;
     }
 };
@@ -226,6 +275,7 @@ struct Runner : IRunner {
         add<0, 'V', 'V', 'V'>(); add<1, 'V', 'V', 'V'>(); add<0, 'V', 'N', 'V', 'N', 'V'>();
         add<0, 'P', 'V', 'P'>(); add<0, 'N', 'V', 'N', 'V', 'N', 'V'>();
         add<0, 'V', 'V', 'V', 'V'>(); add<0, 'V', 'N', 'V', 'V', 'N', 'V'>(); add<0, 'P', 'V', 'V', 'P'>();
+        add<0, 'R'>(); add<0, 'Q'>(); add<0, 'R', 'N', 'P'>(); add<0, 'Q', 'Q'>(); add<0, 'P', 'N', 'R', 'P'>();
     }
 
     const char* name() const override { return name_; }
@@ -318,7 +368,14 @@ struct Runner : IRunner {
         cr.info->is_abstract = abs;
         auto it = static_vptr.find(c);
         if (it == static_vptr.end()) {
-            it = static_vptr.emplace(c, new std::uintptr_t*(nullptr)).first;
+            std::uintptr_t** cell = nullptr;
+            // a class standing for a node of the C++ chain uses the library's own static_vptr<Node<k>>
+            for (int k = 0; k < kNodes; ++k) {
+                if (node_cls[k] == c) {
+                    cell = node_cell(k);
+                }
+            }
+            it = static_vptr.emplace(c, cell ? cell : new std::uintptr_t*(nullptr)).first;
         }
         cr.info->static_vptr = it->second;
         P::classes.push_back(*cr.info);
@@ -691,6 +748,315 @@ struct Runner : IRunner {
             collect_recv(r);
         });
         o_called = r.o;
+    }
+    // ---- virtual_ptr handles
+    int node_cls[kNodes] = {-1, -1, -1, -1};
+    static std::uintptr_t** node_cell(int k) {
+        switch (k) {
+        case 0: return &P::template static_vptr<Node<0>>;
+        case 1: return &P::template static_vptr<Node<1>>;
+        case 2: return &P::template static_vptr<Node<2>>;
+        default: return &P::template static_vptr<Node<3>>;
+        }
+    }
+    bool map_node(int k, int c) override {
+        if (is_std || is_proj || k < 0 || k >= kNodes || static_vptr.count(c)) {
+            return false;
+        }
+        node_cls[k] = c;
+        g_node_static_id[k] = real_id(c, 0);
+        g_node_cls[k] = c;
+        return true;
+    }
+    template<int K>
+    using PV = virtual_ptr<Node<K>, P>;
+    template<int K>
+    using SV = virtual_ptr<std::shared_ptr<Node<K>>, P>;
+    using VPV = std::variant<std::monostate, PV<0>, PV<1>, PV<2>, PV<3>, SV<0>, SV<1>, SV<2>, SV<3>>;
+    struct Handle {
+        VPV v;
+        int k = 0;
+        bool shared = false;
+        int dyn = 0, oid = 0;
+    };
+    std::map<int, Handle> handles;
+    std::deque<std::shared_ptr<Node<3>>> tops;
+
+    template<class F>
+    VpResult vp_guard(F&& f) {
+        VpResult r;
+        try {
+            f(r);
+        } catch (const Caught& c) {
+            r.ok = false;
+            if (c.kind == Caught::unknown_class) {
+                r.err = 1;
+                r.err_cls = class_of_id(c.type);
+            } else if (c.kind == Caught::method_table) {
+                r.err = 2;
+                r.err_cls = class_of_id(c.type);
+            } else {
+                r.err = 8;
+            }
+        } catch (const unknown_class_error& e) {
+            r.ok = false;
+            r.err = 1;
+            r.err_cls = class_of_id(e.type);
+        } catch (const method_table_error& e) {
+            r.ok = false;
+            r.err = 2;
+            r.err_cls = class_of_id(e.type);
+        } catch (const error&) {
+            r.ok = false;
+            r.err = 8;
+        }
+        return r;
+    }
+    template<int K>
+    void make_k(Handle& h, const std::string& route, const std::shared_ptr<Node<3>>& top, VpResult& r) {
+        Node<K>& ref = *top;
+        if (route == "ref") {
+            h.v = PV<K>(ref);
+        } else if (route == "final") {
+            h.v = final_virtual_ptr<P>(ref);
+        } else if (route == "sh_lv") {
+            std::shared_ptr<Node<K>> sp = top;
+            h.v = SV<K>(sp);
+            h.shared = true;
+        } else if (route == "sh_rv") {
+            std::shared_ptr<Node<K>> sp = top;
+            h.v = SV<K>(std::move(sp));
+            h.shared = true;
+        } else if (route == "sh_base") {
+            h.v = SV<K>(top); // from a shared_ptr to the most derived C++ type
+            h.shared = true;
+        } else if (route == "sh_final") {
+            std::shared_ptr<Node<K>> sp = top;
+            h.v = SV<K>::final(sp);
+            h.shared = true;
+        } else {
+            r.err = 9;
+            return;
+        }
+        r.ok = true;
+    }
+    VpResult vp_make(int hid, int k, const std::string& route, int c) override {
+        if (is_std || is_proj) {
+            VpResult r;
+            r.err = 9;
+            return r;
+        }
+        return vp_guard([&](VpResult& r) {
+            Handle h;
+            h.k = k;
+            if (route == "mk") {
+                // make_virtual_shared creates the object itself: dynamic class = node k's class
+                switch (k) {
+                case 0: h.v = make_virtual_shared<Node<0>, P>(); break;
+                case 1: h.v = make_virtual_shared<Node<1>, P>(); break;
+                case 2: h.v = make_virtual_shared<Node<2>, P>(); break;
+                default: h.v = make_virtual_shared<Node<3>, P>(); break;
+                }
+                h.shared = true;
+                std::visit([&](auto& vp) {
+                    if constexpr (!std::is_same_v<std::decay_t<decltype(vp)>, std::monostate>) {
+                        auto* o = const_cast<Obj*>(static_cast<const Obj*>(&*vp));
+                        o->oid = 100000 + hid;
+                        h.dyn = o->cls;
+                        h.oid = o->oid;
+                    }
+                }, h.v);
+                r.ok = true;
+            } else {
+                auto top = std::make_shared<Node<3>>();
+                tops.push_back(top);
+                top->id = real_id(c, 0);
+                top->cls = c;
+                top->oid = 100000 + hid;
+                h.dyn = c;
+                h.oid = top->oid;
+                switch (k) {
+                case 0: make_k<0>(h, route, top, r); break;
+                case 1: make_k<1>(h, route, top, r); break;
+                case 2: make_k<2>(h, route, top, r); break;
+                default: make_k<3>(h, route, top, r); break;
+                }
+            }
+            r.oid = h.oid;
+            r.dyn = h.dyn;
+            if (r.ok) {
+                handles[hid] = std::move(h);
+            }
+        });
+    }
+    VpResult vp_derive(int hid, int from, const std::string& route, int k) override {
+        return vp_guard([&](VpResult& r) {
+            auto it = handles.find(from);
+            if (it == handles.end()) {
+                r.err = 9;
+                return;
+            }
+            Handle& src = it->second;
+            Handle h;
+            h.shared = src.shared;
+            h.dyn = src.dyn;
+            h.oid = src.oid;
+            h.k = k;
+            bool done = false;
+            auto try_pair = [&](auto ktag, auto jtag) {
+                constexpr int K = decltype(ktag)::value; // target node
+                constexpr int J = decltype(jtag)::value; // source node
+                if (done || k != K || src.k != J) {
+                    return;
+                }
+                if (!src.shared) {
+                    PV<J>& s = std::get<PV<J>>(src.v);
+                    if (route == "copy" && K == J) {
+                        PV<J> c(s);
+                        h.v = c;
+                        done = true;
+                    } else if (route == "move" && K == J) {
+                        PV<J> tmp(s);
+                        PV<J> c(std::move(tmp));
+                        h.v = c;
+                        done = true;
+                    } else if (route == "conv") {
+                        if constexpr (K <= J) {
+                            PV<K> c(s); // converting constructor, derived -> base
+                            h.v = c;
+                            done = true;
+                        }
+                    } else if (route == "convmove") {
+                        if constexpr (K <= J) {
+                            PV<J> tmp(s);
+                            PV<K> c(std::move(tmp));
+                            h.v = c;
+                            done = true;
+                        }
+                    } else if (route == "cast") {
+                        if constexpr (K >= J) {
+                            h.v = s.template cast<PV<K>>();
+                            done = true;
+                        }
+                    }
+                } else {
+                    SV<J>& s = std::get<SV<J>>(src.v);
+                    if (route == "copy" && K == J) {
+                        SV<J> c(s);
+                        h.v = c;
+                        done = true;
+                    } else if (route == "move" && K == J) {
+                        SV<J> tmp(s);
+                        SV<J> c(std::move(tmp));
+                        h.v = c;
+                        done = true;
+                    } else if (route == "conv") {
+                        if constexpr (K <= J) {
+                            SV<K> c(s);
+                            h.v = c;
+                            done = true;
+                        }
+                    } else if (route == "convmove") {
+                        if constexpr (K <= J) {
+                            SV<J> tmp(s);
+                            SV<K> c(std::move(tmp));
+                            h.v = c;
+                            done = true;
+                        }
+                    } else if (route == "cast") {
+                        if constexpr (K >= J) {
+                            h.v = s.template cast<SV<K>>();
+                            done = true;
+                        }
+                    }
+                }
+            };
+            auto for_j = [&](auto ktag) {
+                try_pair(ktag, std::integral_constant<int, 0>());
+                try_pair(ktag, std::integral_constant<int, 1>());
+                try_pair(ktag, std::integral_constant<int, 2>());
+                try_pair(ktag, std::integral_constant<int, 3>());
+            };
+            for_j(std::integral_constant<int, 0>());
+            for_j(std::integral_constant<int, 1>());
+            for_j(std::integral_constant<int, 2>());
+            for_j(std::integral_constant<int, 3>());
+            if (!done) {
+                r.err = 9;
+                return;
+            }
+            r.ok = true;
+            r.oid = h.oid;
+            r.dyn = h.dyn;
+            handles[hid] = std::move(h);
+        });
+    }
+    void vp_drop(int h) override {
+        handles.erase(h);
+    }
+    bool vp_ids(int hid, int out[3]) override {
+        auto it = handles.find(hid);
+        if (it == handles.end()) {
+            return false;
+        }
+        std::visit([&](auto& vp) {
+            if constexpr (!std::is_same_v<std::decay_t<decltype(vp)>, std::monostate>) {
+                out[0] = vp.get()->oid;
+                out[1] = (*vp).oid;
+                out[2] = vp->oid;
+            }
+        }, it->second.v);
+        return true;
+    }
+    CallResult vp_call(int m, const std::vector<int>& hs) override {
+        CallResult r;
+        Slot* s = slot_of(m);
+        if (!s || !s->do_call_vp) {
+            r.o = -96;
+            return r;
+        }
+        // convert every handle to the parameter type of the method (base class Obj)
+        std::deque<virtual_ptr<Obj, P>> plain;
+        std::deque<virtual_ptr<std::shared_ptr<Obj>, P>> shared;
+        std::vector<const void*> args;
+        int vi = 0;
+        for (char ch : s->shape) {
+            if (ch == 'N') {
+                continue;
+            }
+            auto it = handles.find(hs[vi++]);
+            if (it == handles.end() || it->second.shared != (ch == 'Q')) {
+                r.o = -96;
+                return r;
+            }
+            std::visit([&](auto& vp) {
+                using T = std::decay_t<decltype(vp)>;
+                if constexpr (std::is_same_v<T, std::monostate>) {
+                } else if constexpr (std::is_same_v<typename T::box_type, typename T::element_type>) {
+                    // smart pointer flavour: converts to virtual_shared_ptr<Obj, P>
+                    if (ch == 'Q') {
+                        shared.emplace_back(vp);
+                        args.push_back(&shared.back());
+                    }
+                } else {
+                    if (ch != 'Q') {
+                        plain.emplace_back(vp);
+                        args.push_back(&plain.back());
+                    }
+                }
+            }, it->second.v);
+        }
+        if ((int)args.size() != s->arity) {
+            r.o = -96;
+            return r;
+        }
+        g_rec.reset();
+        g_reads.clear();
+        guarded(r, [&] {
+            r.retval = s->do_call_vp(args.data());
+            collect_recv(r);
+        });
+        return r;
     }
     std::string shape_of(int m) const override {
         for (auto& s : pool) {
